@@ -225,7 +225,15 @@ def nul_cut(prog: Program):
                     and isinstance(v.args[0], ast.Constant) and v.args[0].value in (b"\x00", b"\0") and isinstance(v.func.value, ast.Name):
                 pos_names[n.targets[0].id] = (v.func.attr, v.func.value.id, n)
 
+    def index_call(e):
+        return isinstance(e, ast.Call) and isinstance(e.func, ast.Attribute) and e.func.attr in ("index", "find") and e.args and isinstance(e.args[0], ast.Constant) \
+            and e.args[0].value == b"\x00" and isinstance(e.func.value, ast.Name) and len(e.args) == 1
+
     def is_cut(base):
+        if isinstance(base, ast.Subscript) and isinstance(base.value, ast.Name) and base.value.id in field_names and isinstance(base.slice, ast.Slice) \
+                and base.slice.lower is None and base.slice.step is None and index_call(base.slice.upper) and base.slice.upper.func.attr == "index" \
+                and base.slice.upper.func.value.id == base.value.id:
+            return True
         return isinstance(base, ast.Subscript) and isinstance(base.value, ast.Name) and base.value.id in field_names and isinstance(base.slice, ast.Slice) \
             and base.slice.lower is None and base.slice.step is None and isinstance(base.slice.upper, ast.Name) and base.slice.upper.id in pos_names \
             and pos_names[base.slice.upper.id][1] == base.value.id and pos_names[base.slice.upper.id][0] == "index"
@@ -276,6 +284,9 @@ def nul_cut(prog: Program):
                 and base.slice.lower is None and base.slice.step is None and isinstance(base.slice.upper, ast.Name) and base.slice.upper.id in pos_names \
                 and pos_names[base.slice.upper.id][1] == base.value.id:
             kind = "cut-" + pos_names[base.slice.upper.id][0]
+        elif isinstance(base, ast.Subscript) and isinstance(base.value, ast.Name) and base.value.id in field_names and isinstance(base.slice, ast.Slice) \
+                and base.slice.lower is None and base.slice.step is None and index_call(base.slice.upper) and base.slice.upper.func.value.id == base.value.id:
+            kind = "cut-" + base.slice.upper.func.attr + "-inline"
         elif isinstance(base, ast.Subscript) and norm(base.slice) == "0" and isinstance(base.value, ast.Call) and isinstance(base.value.func, ast.Attribute) \
                 and base.value.func.attr in ("split", "partition") and base.value.args and isinstance(base.value.args[0], ast.Constant) and base.value.args[0].value == b"\x00" \
                 and isinstance(base.value.func.value, ast.Name) and base.value.func.value.id in field_names:
@@ -290,8 +301,7 @@ def nul_cut(prog: Program):
                 out.append((True, r, "whole field decoded only on the path where it contains no NUL"))
             else:
                 out.append((False, r, "the whole field (including bytes after the terminator) is decoded on a path where a NUL may exist"))
-        elif kind == "cut-find":
-            name = base.slice.upper.id
+        elif kind in ("cut-find", "cut-find-inline"):
             if guarded_no_nul(r) or any(True for _ in []):
                 out.append((True, r, "cut at find() guarded for -1"))
             else:
